@@ -135,6 +135,12 @@ def run(tier, seed):
     rep.assume("bus contract: FPRD of register 0x10 at address a raises EtherCatError iff no terminal answers at a")
     rep.assume("A-ASYNC; rely: at an await other tasks may only add to used_addresses")
     rep.assume("random.randint(a, b) returns any integer in [a, b]; termination of the retry loop is not claimed")
+    # the bus contract's "iff": a request fails with EtherCatError only when
+    # its datagram came back unprocessed - a transport fault reaches the caller
+    # as itself (C12's contract of process_packet, re-proved here)
+    from contracts import c12_requests as S12
+    from props import c12
+    S12.verify_faults(api, rep, c12.native_fault)
     api.verify(S.find_free_address, rep, replay=native)
     api.verify(S.assigned_address, rep, replay=native)
     # "used only grows" is proved for find_free_address; that nothing else in
